@@ -4,7 +4,9 @@ Line protocol of the system model (used by C01 and the other history-level prope
 One line = one whole history:   `C01 <item>;<item>;...`
 First item:  `init <useQueue 0/1> <skipQueue 0/1> <dest> <dest> ...`   (destinations in cascade order;
              d4.3 = development/4.3, d4 = development/4, s5.1.4 = stabilization/5.1.4, h4.2.17 = hotfix/4.2.17)
-Events:      `pr <id> <src> <dst> <stage e|i|f> <orc bits|-> <sel ids|->`
+Events:      `pr <id> <src> <dst> <stage e|i|f> <orc bits|-> <sel ids|-> [<no_octopus 0/1>]`
+             (the last field is `job.settings.no_octopus` of this evaluation; absent = 0. With it, every 3-way merge
+             of the cascade is `consecutive_merge` and asks the content-merge oracle up to four times)
              `declined <id> <src> <dst> <childDeclined 0/1>` · `reset <id> <src> <dst>` · `queues <sel ids|->`
              `dropq` · `mkbranch <dest> <commit>` · `rmbranch <dest>`
              `x <name> <onTop 0/1> <parent commits|->` · `xw <dest> <src>` · `xdel <name>` · `xpoint <name> <commit>`
@@ -84,17 +86,26 @@ def parseStage : String → Option Stage
 def parseBits (s : String) : List Bool :=
   if s == "-" then [] else s.toList.map (· == '1')
 
+def parseOnOff : String → Option Bool
+  | "0" => some false
+  | "1" => some true
+  | _ => none
+
 def parseEvent (ws : List String) : Option Event :=
   match ws with
   | ["pr", id, src, dst, stage, orc, sel] => do
     let i ← id.toNat?; let d ← parseDest dst; let st ← parseStage stage; let sl ← parseNats sel ","
-    pure (.evalPr ⟨i, src, d⟩ st (parseBits orc) sl)
+    pure (.evalPr ⟨i, src, d, false⟩ st (parseBits orc) sl)
+  | ["pr", id, src, dst, stage, orc, sel, noOct] => do
+    let i ← id.toNat?; let d ← parseDest dst; let st ← parseStage stage; let sl ← parseNats sel ","
+    let n ← parseOnOff noOct
+    pure (.evalPr ⟨i, src, d, n⟩ st (parseBits orc) sl)
   | ["declined", id, src, dst, cd] => do
     let i ← id.toNat?; let d ← parseDest dst
-    pure (.evalDeclined ⟨i, src, d⟩ (cd == "1"))
+    pure (.evalDeclined ⟨i, src, d, false⟩ (cd == "1"))     -- no merge in these two jobs: the option is not read
   | ["reset", id, src, dst] => do
     let i ← id.toNat?; let d ← parseDest dst
-    pure (.reset ⟨i, src, d⟩)
+    pure (.reset ⟨i, src, d, false⟩)
   | ["queues", sel] => do let sl ← parseNats sel ","; pure (.evalQueues sl)
   | ["dropq"] => some .dropQueues
   | ["mkbranch", dst, c] => do let d ← parseDest dst; let k ← c.toNat?; pure (.createBranch d k)
